@@ -274,7 +274,8 @@ Example LLDP_valid_ex : wf ex_lldp /\ bytes_ok (arr ex_lldp) /\ LLDP_IsValid ex_
 Proof. repeat split; first [ apply bytes_okb_spec; vm_compute; reflexivity | vm_compute; reflexivity | vm_compute; lia ]. Qed.
 Definition ex_rs : slice := of_bytes [133;0;0;0; 0;0;0;0; 1;1;2;0;0;0;0;1].
 Example RS_valid_ex : wf ex_rs /\ bytes_ok (arr ex_rs) /\ RS_IsValid ex_rs = Ok true /\
-  RS_SourceLLA ex_rs = Ok (VR 10 6) /\ RS_Options ex_rs = Ok VU.
+  RS_SourceLLA ex_rs = Ok (VR 10 6) /\
+  RS_Options ex_rs = Ok (ndp_show (mkSt 0 [] 0 [] [2;0;0;0;0;1] [] 0 [] (0, 0, 0, []))).
 Proof. repeat split; first [ apply bytes_okb_spec; vm_compute; reflexivity | vm_compute; reflexivity | vm_compute; lia ]. Qed.
 Definition ex_llc : slice := of_bytes [66;66;0].
 Example LLC_valid_ex : wf ex_llc /\ bytes_ok (arr ex_llc) /\ LLC_IsValid ex_llc = Ok true /\ LLC_Payload ex_llc = Ok VNil.
